@@ -7,7 +7,8 @@ Proved end to end: `qubit_sparse_sound` (Kronecker chains, the swapped `(column,
 coordinate extraction — right because Pauli-string chains have a symmetric sparsity pattern and no
 explicit zeros —, duplicate summation), `jw_sparse_sound`, `matvec_*`, `diagonal_sound`,
 `parallel_*`.  Not proved (see OPEN_STATEMENTS in harness/c06.py): truncated boson / quadrature
-matrices and the scipy glue of expectation / variance / eigenspectrum (numeric correspondence).
+matrices (partial) and eigenspectrum (numeric correspondence); `expectation` / `variance` are proved for
+the Model's sparse-matrix form (`expectation_*`, `variance_*`).
 -/
 import OFV.Model.C06
 import OFV.Spec.C06
@@ -19,6 +20,8 @@ import OFV.Proofs.C06Ladder
 import OFV.Proofs.C06JW
 import OFV.Proofs.C06Assembly
 import OFV.Proofs.C06Boson
+import OFV.Model.C06Expect
+import OFV.Proofs.C06Expect
 
 namespace OFV.C06
 open OFV OFV.Spec OFV.Spec.C06 OFV.Model OFV.Model.C06 OFV.Proofs.C06
@@ -343,5 +346,57 @@ example : bosonTermColumn 4 1 [(0, 1), (0, 1), (0, 0)] 2 = some (3, 12) ∧
     Spec.actTermWith Spec.actB [(0, 1), (0, 1), (0, 0)] [2] = some (GQ.ofInt 2, [3]) ∧
     2 * 2 * Proofs.C06B.wfact [3] = 12 * Proofs.C06B.wfact [2] := by
   refine ⟨by decide, by decide +kernel, by decide⟩
+
+/-! ### `expectation`, `variance` (glue over scipy / numpy) -/
+
+/-- `Σ_{k < N} f k` -/
+def sumTo (N : Nat) (f : Nat → GQ) : GQ := (List.range N).foldr (fun k acc => f k + acc) 0
+
+/-- **`expectation_vec_sound`**: for a sparse matrix (entry list, duplicates summed) and a state vector,
+`expectation(M, ψ) = numpy.dot(conj ψ, M * ψ)` is `⟨ψ|M|ψ⟩ = Σ_r conj ψ_r Σ_c M[r,c] ψ_c`
+(the column-vector branch computes the same number). -/
+theorem expectation_vec_sound (M : Mat) (hM : InRange M) (psi : List GQ) (hl : psi.length = M.rows) :
+    expectationVec M psi =
+      sumTo M.rows (fun r => GQ.conj (psi.getD r 0) * sumTo M.cols (fun c => M.get r c * psi.getD c 0)) :=
+  expectationVec_eq M hM psi hl
+
+/-- **`expectation_density_sound`**: for a density matrix the function returns `Tr(ρ M) = Σ_i Σ_k ρ[i,k] M[k,i]`. -/
+theorem expectation_density_sound (M rho : Mat) (hR : InRange rho) :
+    expectationDensity M rho = sumTo rho.rows (fun i => sumTo rho.cols (fun k => rho.get i k * M.get k i)) :=
+  expectationDensity_eq M rho hR
+
+/-- the two branches of `expectation` agree on a pure state: if `ρ[i,k] = ψ_i conj ψ_k` then
+`expectation(M, ρ) = expectation(M, ψ)`. -/
+theorem expectation_pure_consistent (M rho : Mat) (hM : InRange M) (hR : InRange rho) (psi : List GQ) (n : Nat)
+    (hm : M.rows = n ∧ M.cols = n) (hr : rho.rows = n ∧ rho.cols = n) (hl : psi.length = n)
+    (hrho : ∀ i k, i < n → k < n → rho.get i k = psi.getD i 0 * GQ.conj (psi.getD k 0)) :
+    expectationDensity M rho = expectationVec M psi :=
+  expectation_pure M rho hM hR psi n hm hr hl hrho
+
+/-- **`variance_def`**: `variance(M, state) = expectation(M², state) - expectation(M, state)²` with the
+matrix square `(M²)[r,c] = Σ_k M[r,k] M[k,c]`, for both state formats — `⟨M²⟩ - ⟨M⟩²`, NOT
+`⟨M†M⟩ - ⟨M⟩²`: no Hermiticity is assumed. -/
+theorem variance_def (M : Mat) (hM : InRange M) (psi : List GQ) (rho : Mat) :
+    varianceVec M psi = expectationVec (matMul M M) psi - expectationVec M psi * expectationVec M psi ∧
+    varianceDensity M rho =
+      expectationDensity (matMul M M) rho - expectationDensity M rho * expectationDensity M rho ∧
+    (∀ r c, (matMul M M).get r c = sumTo M.cols (fun k => M.get r k * M.get k c)) :=
+  ⟨rfl, rfl, fun r c => matMul_get M M hM r c⟩
+
+/-- for a HERMITIAN matrix the second moment is the squared norm of `Mψ`
+(`⟨ψ|M²|ψ⟩ = numpy.vdot(Mψ, Mψ)`); a shortcut through `vdot(Mψ, Mψ)` is therefore sound only for
+Hermitian operators. -/
+theorem second_moment_hermitian_only (M : Mat) (hM : InRange M) (n : Nat) (hm : M.rows = n ∧ M.cols = n)
+    (psi : List GQ) (hl : psi.length = n) (hH : ∀ r c, r < n → c < n → M.get r c = GQ.conj (M.get c r)) :
+    expectationVec (matMul M M) psi = vdotc (sparseMatvec M psi) (sparseMatvec M psi) :=
+  second_moment_hermitian M hM n hm psi hl hH
+
+/-- … and it fails without Hermiticity: the nilpotent `M = |0⟩⟨1|` on `ψ = |1⟩` has `⟨M²⟩ = 0` but
+`‖Mψ‖² = 1`; the variance of `M` in `ψ` is `0`. -/
+example :
+    expectationVec (matMul ⟨2, 2, [(0, 1, 1)]⟩ ⟨2, 2, [(0, 1, 1)]⟩) [0, 1] = 0 ∧
+    vdotc (sparseMatvec ⟨2, 2, [(0, 1, 1)]⟩ [0, 1]) (sparseMatvec ⟨2, 2, [(0, 1, 1)]⟩ [0, 1]) = 1 ∧
+    varianceVec ⟨2, 2, [(0, 1, 1)]⟩ [0, 1] = 0 := by
+  refine ⟨by decide +kernel, by decide +kernel, by decide +kernel⟩
 
 end OFV.C06
